@@ -6,6 +6,7 @@ import (
 	"go/token"
 	"go/types"
 	"math/big"
+	"strings"
 
 	"gosmt/smt"
 
@@ -694,6 +695,15 @@ func (ex *Exec) rangeIter(fr *frame, instr *ssa.Range, x value) value {
 			it.keys = append(it.keys, x.entries...)
 			if len(it.keys) > 1 {
 				ex.pathFlags["map-iteration-order"] = true
+				// Go leaves the iteration order of a map unspecified (and randomises it): when the harness asks for it,
+				// every range over a map of the code under test takes one of two orders, insertion order or its reverse
+				if ex.nondetMapOrder && fr != nil && fr.fn != nil && !strings.Contains(fr.fn.Name(), "VerifHarness") && !strings.HasPrefix(fr.fn.Name(), "verif") {
+					if ex.choose("map-order", 2) == 1 {
+						for i, j := 0, len(it.keys)-1; i < j; i, j = i+1, j-1 {
+							it.keys[i], it.keys[j] = it.keys[j], it.keys[i]
+						}
+					}
+				}
 			}
 		}
 		return it
